@@ -134,6 +134,8 @@ func checkUTF8N(src []byte, tie bool) {
 		}
 		if tie && f == variants[0] {
 			S.tie([]string{"V", hx(src)}, []string{itoa(ret)})
+			// the model of the AVX2 lookup pre-check: its verdict is unicode/utf8's, the routine's result is the blob's
+			S.tie([]string{"VA", hx(src)}, []string{btxt(bad < 0), itoa(ret)})
 		}
 		if len(src) == 0 {
 			continue
